@@ -325,7 +325,7 @@ func (s *Sys) Exec(toks []string) string {
 		if !strings.HasPrefix(res, "err") && !strings.HasPrefix(res, "panic") {
 			s.pending = append(s.pending, toks)
 		}
-	case "save", "wsave", "rollback", "reopen", "reopenat", "load", "lvfo", "savecs":
+	case "save", "wsave", "ctab", "rollback", "reopen", "reopenat", "load", "lvfo", "savecs":
 		if !strings.HasPrefix(res, "err") {
 			s.pending = nil
 		}
@@ -387,6 +387,55 @@ func (s *Sys) exec1(toks []string) string {
 				return "ws-order"
 			}
 			return rPair("ws["+strings.Join(nodes, ",")+"]", rPair(rBytes(h), rInt(v)))
+		case "ctab":
+			// ctab save: a commit whose physical batches are recorded; for every batch prefix the
+			// image is opened by a new tree object and the outcome of Load() is reported, indexed by
+			// the number of node-store writes in the prefix: ct[<j>:<ok:version|err>;..];<result>
+			if s.hooks == nil || len(toks) < 2 || toks[1] != "save" {
+				h, v, err := t.SaveVersion()
+				if err != nil {
+					return "err"
+				}
+				return "ct-nowrap;" + rPair(rBytes(h), rInt(v))
+			}
+			pre := snapshotDB(s.db)
+			s.hooks.writes = nil
+			s.hooks.record = true
+			h, v, err := t.SaveVersion()
+			s.hooks.record = false
+			writes := s.hooks.writes
+			s.hooks.writes = nil
+			if err != nil {
+				return "err"
+			}
+			var ents []string
+			lastJ := -1
+			for i := 0; i <= len(writes); i++ {
+				j := 0
+				for _, w := range writes[:i] {
+					for _, o := range w {
+						if len(o.k) == 13 && o.k[0] == 's' {
+							j++
+						}
+					}
+				}
+				img := imageDB(pre, writes[:i])
+				ft := iavl.NewMutableTree(img, 0, true, iavl.NewNopLogger(), s.options()...)
+				lv, lerr := ft.Load()
+				res := "ok:" + strconv.FormatInt(lv, 10)
+				if lerr != nil {
+					res = "err"
+				}
+				_ = ft.Close()
+				e := fmt.Sprintf("%d:%s", j, res)
+				if j == lastJ {
+					ents[len(ents)-1] = e
+				} else {
+					ents = append(ents, e)
+				}
+				lastJ = j
+			}
+			return "ct[" + strings.Join(ents, ";") + "];" + rPair(rBytes(h), rInt(v))
 		case "save":
 			h, v, err := t.SaveVersion()
 			if err != nil {
